@@ -163,8 +163,13 @@ func snap(dir string) snapshot {
 		if err != nil || fi.IsDir() {
 			return nil
 		}
-		b, _ := os.ReadFile(p)
 		rel, _ := filepath.Rel(dir, p)
+		if !fi.Mode().IsRegular() {
+			// a FIFO, a symbolic link: its kind and mode only (reading a FIFO would wait for a writer)
+			s[rel] = fmt.Sprintf("%v", fi.Mode())
+			return nil
+		}
+		b, _ := os.ReadFile(p)
 		s[rel] = fmt.Sprintf("%o:%x", fi.Mode().Perm(), stats.Hash(b))
 		return nil
 	})
@@ -392,6 +397,15 @@ func c15Check(c c15Case, st *stats.Run) error {
 		launch = fmt.Sprintf("fsize:%d", c.OutLimit)
 	case "o-devfull":
 		outPath = "/dev/full"
+	case "o-devnull":
+		outPath = "/dev/null"
+	case "o-devstdout":
+		outPath = "/dev/stdout" // standard output is a pipe here
+	case "o-fifo":
+		outPath = "out.fifo"
+		if err := syscall.Mkfifo(filepath.Join(dir, outPath), 0o600); err != nil {
+			return pbt.Failf("C15/harness", "mkfifo: %v", err)
+		}
 	case "pipe-close":
 		stdoutMode = "pipe-close"
 	case "stdout-devfull":
@@ -520,7 +534,25 @@ func c15Check(c c15Case, st *stats.Run) error {
 	}
 	args = c15Spell(args, c.Long)
 	before := snap(dir)
+	var fifoGot bytes.Buffer
+	var fifoDone chan struct{}
+	var fifoFile *os.File
+	if c.Out == "o-fifo" && sameTarget == "" {
+		// a reader on the other end of the FIFO (opened read-write so that neither side ever blocks in open)
+		if ff, err := os.OpenFile(filepath.Join(dir, "out.fifo"), os.O_RDWR, 0); err == nil {
+			fifoFile, fifoDone = ff, make(chan struct{})
+			go func() {
+				defer close(fifoDone)
+				io.Copy(&fifoGot, ff)
+			}()
+		}
+	}
 	res := c15Run(runDir, launch, stdin, stdoutMode, c.OutLimit, filepath.Join(bin, "age"), args...)
+	if fifoFile != nil {
+		time.Sleep(50 * time.Millisecond)
+		fifoFile.Close()
+		<-fifoDone
+	}
 	if res.killed || res.code == -3 {
 		st.Label("inconclusive-timeout-or-spawn")
 		return nil
@@ -534,6 +566,10 @@ func c15Check(c c15Case, st *stats.Run) error {
 	switch {
 	case outPath == "" && (stdoutMode == "" && launch != "closed-stdout" || stdoutMode == "pipe-close"):
 		delivered = res.stdout
+	case c.Out == "o-devstdout" && sameTarget == "":
+		delivered = res.stdout
+	case c.Out == "o-fifo" && sameTarget == "":
+		delivered = fifoGot.Bytes()
 	case outPath != "" && !strings.HasPrefix(outPath, "/dev/"):
 		outFull := outPath
 		if !filepath.IsAbs(outFull) {
@@ -556,6 +592,9 @@ func c15Check(c c15Case, st *stats.Run) error {
 		if !deliveredKnown {
 			if total == 0 && (c.Out == "o-devfull" || c.Out == "stdout-devfull") {
 				return nil // an empty result needs no byte written
+			}
+			if c.Out == "o-devnull" {
+				return nil // a sink: everything written to it has been delivered
 			}
 			return fmt.Errorf("nothing can have been delivered to %s", c.Out)
 		}
@@ -662,6 +701,10 @@ func c15CheckKeygen(c c15Case, st *stats.Run, bin string) error {
 		for i := 0; i < c.NKeys; i++ {
 			in.WriteString(refage.Bech32Encode("AGE-SECRET-KEY-", p.X25519[i%8]) + "\n")
 			wantLines = append(wantLines, refage.Bech32Encode("age", refage.X25519Public(p.X25519[i%8])))
+			if c.Flags == "long-line" && i == 0 {
+				// a line no key-file reader can take in: the input cannot be converted as a whole
+				in.WriteString("# " + strings.Repeat("c", 70000) + "\n")
+			}
 		}
 		os.WriteFile(filepath.Join(dir, "ids.txt"), in.Bytes(), 0o600)
 		if c.Stdin {
@@ -729,6 +772,9 @@ func c15CheckKeygen(c c15Case, st *stats.Run, bin string) error {
 		}
 	}
 	inputOK := c.Op == "keygen" || c.NKeys > 0
+	if c.Op == "keygen-y" && c.Flags == "long-line" {
+		inputOK = false
+	}
 	expectSuccess := outputOK && inputOK
 	outcome := "expect-failure"
 	if expectSuccess {
@@ -1103,7 +1149,7 @@ func c15Gen(t *rapid.T) c15Case {
 	c.Stdin = rapid.IntRange(0, 3).Draw(t, "stdin") == 0
 	c.Long = rapid.IntRange(0, 2).Draw(t, "long") == 0
 	c.Dash = rapid.IntRange(0, 3).Draw(t, "dash") == 0
-	c.Out = rapid.SampledFrom([]string{"stdout", "new", "new", "existing", "missing-parent", "parent-is-file", "long-name", "fsize", "fsize", "o-devfull", "pipe-close", "stdout-devfull", "stdout-closed"}).Draw(t, "out")
+	c.Out = rapid.SampledFrom([]string{"stdout", "new", "new", "existing", "missing-parent", "parent-is-file", "long-name", "fsize", "fsize", "o-devfull", "pipe-close", "stdout-devfull", "stdout-closed", "o-devnull", "o-devstdout", "o-fifo"}).Draw(t, "out")
 	total := c.PlainLen + 200
 	switch rapid.IntRange(0, 3).Draw(t, "limitClass") {
 	case 0:
@@ -1327,7 +1373,7 @@ func TestC15(t *testing.T) {
 						n++
 					}
 				}
-				for _, out := range []string{"missing-parent", "parent-is-file", "long-name", "o-devfull", "stdout-devfull", "stdout-closed", "existing", "new", "stdout"} {
+				for _, out := range []string{"missing-parent", "parent-is-file", "long-name", "o-devfull", "stdout-devfull", "stdout-closed", "existing", "new", "stdout", "o-devnull", "o-devstdout", "o-fifo"} {
 					for _, armor := range []bool{false, true} {
 						if s.Mine(n) {
 							yield(c15Case{Op: op, Key: "x25519-r", Armor: armor, PlainLen: l, Out: out, Damage: "none", Ident: "right", Umask: -1})
@@ -1337,7 +1383,7 @@ func TestC15(t *testing.T) {
 				}
 			}
 		}
-		s.St.Exhaust("output faults: size limits at structural offsets and every kind of unusable output x {encrypt, decrypt} x plaintext lengths {0, 100, 64K+1}", int64(n))
+		s.St.Exhaust("output faults: size limits at structural offsets, every kind of unusable output and the usable non-regular ones (/dev/null, /dev/stdout, a FIFO) x {encrypt, decrypt} x plaintext lengths {0, 100, 64K+1}", int64(n))
 	}, check)
 	// thorough tier: every byte offset at which the output can fail, for small
 	// results; every offset near the structural boundaries of a two-chunk one;
@@ -1443,6 +1489,13 @@ func TestC15(t *testing.T) {
 		}
 		if s.Mine(n) {
 			yield(c15Case{Op: "keygen-y", Out: "stdout", Umask: -1, NKeys: 0})
+		}
+		for _, out := range []string{"stdout", "new"} {
+			for _, stdin := range []bool{false, true} {
+				if s.Mine(n) {
+					yield(c15Case{Op: "keygen-y", Out: out, Umask: -1, NKeys: 3, Flags: "long-line", Stdin: stdin})
+				}
+			}
 		}
 		s.St.Exhaust("age-keygen and age-keygen -y x every kind of output (new file under 3 umasks, existing file, unusable outputs, size limits)", int64(n+1))
 	}, check)
